@@ -12,6 +12,10 @@ From SK Require Import model.C03_Model model.C05_Model proof.C05_Proof proof.C05
   proof.C05_Main proof.C05_Sub proof.C05_Set.
 Import ListNotations.
 
+Section WithThr.
+Context {TH : Thr}.
+
+
 (** what is asked of one writing (substrate, prepared rule); every item is a boolean evaluated on every case of the
     correspondence ([side_okb] in the model's run function) *)
 Record side_ok (host : hostg) (p : prepared) : Prop := {
@@ -19,7 +23,7 @@ Record side_ok (host : hostg) (p : prepared) : Prop := {
   so_host : gwf (host_c06 host);
   so_pat : gwf (pat_c06 (p_pat p));
   so_count : (C06_Model.lenN (C06_Model.monos_on (host_c06 host) (pat_c06 (p_pat p))
-                                (node_ids (host_c06 host)) (node_ids (pat_c06 (p_pat p)))) <= DEFAULT_THRESHOLD)%N;
+                                (node_ids (host_c06 host)) (node_ids (pat_c06 (p_pat p)))) <= thr_val)%N;
   so_rc_nodup : NoDup (node_ids (p_rc p));
   so_rc_simple : simple_edgesb (gedges (p_rc p)) = true;
   so_rc_closed : forall a b x, In (a, b, x) (gedges (p_rc p)) -> In a (node_ids (p_rc p)) /\ In b (node_ids (p_rc p));
@@ -56,8 +60,8 @@ Qed.
 Lemma raw_is_mono host p k : side_ok host p -> In k (raw_of 0%N host p) -> is_mono (host_c06 host) (pat_c06 (p_pat p)) k.
 Proof.
   intros S Hin. unfold raw_of in Hin. rewrite matches_monos_on in Hin.
-  change (cfg_of 0%N) with (C06_Model.Cfg 0 0 DEFAULT_THRESHOLD true false) in Hin.
-  destruct (all_exact _ DEFAULT_THRESHOLD true _ _ (proj1 (monos_on_oracle_ok _ _ (so_host _ _ S) (so_pat _ _ S))) (so_count _ _ S))
+  change (cfg_of 0%N) with (C06_Model.Cfg 0 0 thr_val true false) in Hin.
+  destruct (all_exact _ thr_val true _ _ (proj1 (monos_on_oracle_ok _ _ (so_host _ _ S) (so_pat _ _ S))) (so_count _ _ S))
     as (Hsound & _ & _).
   apply Hsound. exact Hin.
 Qed.
@@ -185,7 +189,7 @@ Lemma vocabulary :
   (forall host p, side_okb host p = true ->
      p_flag p = false /\ gwf (host_c06 host) /\ gwf (pat_c06 (p_pat p)) /\
      (C06_Model.lenN (C06_Model.monos_on (host_c06 host) (pat_c06 (p_pat p))
-                        (node_ids (host_c06 host)) (node_ids (pat_c06 (p_pat p)))) <= DEFAULT_THRESHOLD)%N /\
+                        (node_ids (host_c06 host)) (node_ids (pat_c06 (p_pat p)))) <= thr_val)%N /\
      NoDup (node_ids (p_rc p)) /\ simple_edgesb (gedges (p_rc p)) = true /\
      (forall a b x, In (a, b, x) (gedges (p_rc p)) -> In a (node_ids (p_rc p)) /\ In b (node_ids (p_rc p))) /\
      (forall u, In u (node_ids (p_pat p)) -> In u (node_ids (p_rc p)))).
@@ -195,3 +199,5 @@ Proof.
   intros host p H. destruct (side_okb_ok host p H) as [A B C D E F G I].
   split; [exact A|]. split; [exact B|]. split; [exact C|]. split; [exact D|]. split; [exact E|]. split; [exact F|]. split; [exact G | exact I].
 Qed.
+
+End WithThr.
